@@ -269,7 +269,7 @@ def guards(ctx, bb):
                 # multiple arms may share a target
                 if edge_dominates_multi(body, d, tgt, bb, [a for a in arms if a[1] == tgt], t["otherwise"]):
                     hits.append(val)
-            cond = operand_tree(ctx, t["discr"])
+            cond = collapse_phi(ctx, operand_tree(ctx, t["discr"]))
             dty = t.get("discr_ty", "bool")
             if hits:
                 for v in hits[:1]:
@@ -437,17 +437,19 @@ def _exclusive(f, g):
     return False
 
 
-def mutated_between(ctx, d1, bb, places):
-    """some block on a path d1 -> bb (d1's own statements included) may write one of `places`
-    ((root, path) pairs; a write to a prefix or an extension of a path counts): an assignment
-    through a projection, or a call that is handed a `&mut` into it"""
+def mutated_between(ctx, d1, bb, places, stops=(), include_start=True):
+    """some block on a path d1 -> bb may write one of `places` ((root, path) pairs; a write to a
+    prefix or an extension of a path counts): an assignment through a projection, or a call that
+    is handed a `&mut` into it.  Paths that come back to d1 or run into one of `stops` are not
+    followed (the tested value is re-evaluated there).  With include_start the statements of d1
+    itself count (d1 is a branch block); without, d1 is the call that evaluated the value."""
     body = ctx.body
-    # blocks on a path d1 -> bb that does not come back to d1 (coming back re-evaluates the branch)
+    stops = set(stops) | {d1}
     fwd = set()
-    st_ = [s_ for s_ in body.succs(d1) if s_ != d1]
+    st_ = [s_ for s_ in body.succs(d1) if s_ not in stops]
     while st_:
         x = st_.pop()
-        if x in fwd or x == d1:
+        if x in fwd or x in stops:
             continue
         fwd.add(x)
         st_.extend(body.succs(x))
@@ -459,12 +461,14 @@ def mutated_between(ctx, d1, bb, places):
             y = stack.pop()
             if y == bb:
                 return True
-            if y in seen or y == d1:
+            if y in seen or y in stops:
                 continue
             seen.add(y)
             stack.extend(body.succs(y))
         return False
-    region = {x for x in fwd if x == bb or reaches_bb(x)} | {d1}
+    region = {x for x in fwd if x == bb or reaches_bb(x)}
+    if include_start:
+        region |= {d1}
     for x in region:
         for st in body.blocks[x]["stmts"]:
             if st["k"] == "assign" and st["place"]["p"]:
@@ -482,17 +486,71 @@ def mutated_between(ctx, d1, bb, places):
     return False
 
 
+EVAL_MERGE = {}  # (body key, bb) -> set of blocks that evaluate the same expression (collapsed phi)
+
+
+def collapse_phi(ctx, t):
+    """a phi all of whose alternatives are the same expression evaluated at different program
+    points (a cached flag `let mut f = e(); loop { .. if changed { f = e(); } }`) denotes that
+    expression, evaluated at the most recent of those points; the points are remembered so that
+    fact_still_holds can look for writes after each of them"""
+    if not isinstance(t, tuple) or not t:
+        return t
+    if t[0] == "phi":
+        alts = [collapse_phi(ctx, a) for a in t[1]]
+        if alts and all(nobb(a) == nobb(alts[0]) for a in alts[1:]):
+            bbs = set()
+            for a in alts:
+                for nd in _calls_of(a):
+                    bbs.add(nd[4])
+            for nd in _calls_of(alts[0]):
+                EVAL_MERGE.setdefault((ctx.body.key, nd[4]), set()).update(bbs)
+            return alts[0]
+        return ("phi", tuple(alts))
+    if t[0] in ("un",):
+        return (t[0], t[1], collapse_phi(ctx, t[2]))
+    if t[0] == "bin":
+        return (t[0], t[1], collapse_phi(ctx, t[2]), collapse_phi(ctx, t[3]))
+    if t[0] == "discr":
+        return (t[0], collapse_phi(ctx, t[1]))
+    return t
+
+
+def _calls_of(t):
+    if isinstance(t, tuple):
+        if t and t[0] == "call" and len(t) == 5 and isinstance(t[4], int):
+            yield t
+        for x in t:
+            if isinstance(x, tuple):
+                yield from _calls_of(x)
+
+
 def fact_still_holds(ctx, f, bb):
     """a dominating branch fact about mutable state is only usable at bb when nothing it mentions
-    can have been written between the branch and bb (a guard hoisted out of a loop that changes
-    the guarded state goes stale)"""
+    can have been written between the point where the tested value was computed (the measuring
+    call, e.g. `is_empty()`; the branch itself for plain field comparisons) and bb -- a guard
+    hoisted out of a loop that changes the guarded state goes stale, a cached flag that is
+    re-computed after every such change does not"""
     d = f[-1]
     if not isinstance(d, int):
         return True  # inherited from an enclosing body: not tracked
-    places = _tree_roots(tuple(x for x in f[1:-1] if isinstance(x, tuple)), set())
+    trees_ = tuple(x for x in f[1:-1] if isinstance(x, tuple))
+    places = _tree_roots(trees_, set())
     if not places:
         return True
-    return not mutated_between(ctx, d, bb, places)
+    evals = set()
+    for nd in _calls_of(trees_):
+        if _tree_roots(nd[2], set()) & places:
+            evals.add(nd[4])
+            evals |= EVAL_MERGE.get((ctx.body.key, nd[4]), set())
+    if not evals:
+        return not mutated_between(ctx, d, bb, places)
+    for e in evals:
+        if e == bb:
+            continue
+        if mutated_between(ctx, e, bb, places, stops=evals - {e}, include_start=False):
+            return False
+    return True
 
 
 def infeasible(ctx, bb):
